@@ -40,7 +40,7 @@ def parents_ok(n, ps):
 
 
 @lemma('S1.traverse', 'C12', quick=[{'n': n} for n in (1, 2, 3)] + [{'n': 4, 'filt': f, 'src': i, 'tup': t} for f in (0, 1, 2) for i in (False, True) for t in (False, True)],
-       thorough=[{'n': n} for n in (1, 2, 3)] + [{'n': n, 'filt': f, 'src': i, 'timeout': 6000} for n in (4, 5) for f in (0, 1, 2) for i in (False, True)], timeout=900, per_path=60,
+       thorough=[{'n': n} for n in (1, 2, 3)] + [{'n': n, 'filt': f, 'src': i, 'tup': t, 'timeout': 6000} for n in (4, 5) for f in (0, 1, 2) for i in (False, True) for t in (False, True)], timeout=900, per_path=60,
        covers=['utils.py:traverse', 'token.py:Token.children'],
        note='all tree shapes over n nodes (parent vector), node classes, children as list or tuple, klass filter, depth limit (unbounded int or None), include_source')
 def s1_traverse(p1: int, p2: int, p3: int, p4: int, p5: int, k0: bool, k1: bool, k2: bool, k3: bool, k4: bool, k5: bool,
